@@ -19,9 +19,9 @@
    exactly when noOptional is set; the optional flag itself and the recursion flag are not
    part of the six-column file. *)
 From Coq Require Import Lia.
-From Eupsv Require Import Base.Base Base.BaseLemmas Model.Manifest Model.ManifestSpec
+From Eupsv Require Import Base.Base Base.BaseLemmas Model.Manifest Model.ManifestSpec Model.ManifestOps
   Proofs.ManifestLib Proofs.ManifestText Proofs.ManifestTag Proofs.ManifestMap Proofs.ManifestInv
-  Proofs.ManifestMerge Proofs.ManifestRemapFile.
+  Proofs.ManifestMerge Proofs.ManifestRemapFile Proofs.ManifestOps.
 
 (* ================================================================== manifests *)
 
@@ -146,6 +146,151 @@ Example taglist_hyps_inhabited :
   akeys (tl_entries ex_tl) = [lit "zeta"; lit "alpha"; lit "beta"] /\
   akeys (sorted_entries (tl_entries ex_tl)) = [lit "alpha"; lit "beta"; lit "zeta"] /\
   forallb (fun e => match e with (_, (f, _, _)) => str_eqb f (lit "Linux64") end) (tl_entries ex_tl) = true.
+Proof. vm_compute. repeat split. Qed.
+
+(* ================================================================== one object, several operations *)
+
+(* Model/ManifestOps.v: the object and the files it has written are a state (ts_list, ts_files);
+   addProduct, write(file, flavor=fa, noaction) and read(file) are steps on it.  The property
+   speaks of -a list written by eups-: whatever was done to the object before, and whatever is
+   written afterwards, the file holds the list as it stands.  write is a function of the list:
+   it returns the list unchanged. *)
+
+(* a write - with or without the flavor override, dry run or not - leaves the list it writes as it was *)
+Theorem write_leaves_list_unchanged s f fa na s' :
+  tl_step s (TWrite f fa na) = Ok s' -> ts_list s' = ts_list s.
+Proof. apply tl_step_write_list. Qed.
+Print Assumptions write_leaves_list_unchanged.
+
+(* a dry run changes nothing at all: neither the list nor any file *)
+Theorem write_noaction_changes_nothing s f fa : tl_step s (TWrite f fa true) = Ok s.
+Proof. apply tl_step_noaction. Qed.
+Print Assumptions write_noaction_changes_nothing.
+
+(* any sequence of writes succeeds and leaves the list as it was *)
+Theorem writes_leave_list_unchanged s ops :
+  forallb tl_is_write ops = true ->
+  exists s', tl_run s ops = Ok s' /\ ts_list s' = ts_list s.
+Proof.
+  intros Hw. destruct (tl_run_writes_ok ops s Hw) as [s' Hr]. exists s'. split; [assumption|].
+  now apply (tl_run_writes_list ops s s').
+Qed.
+Print Assumptions writes_leave_list_unchanged.
+
+(* write(file, flavor=g) read back: a reader of flavor fl sees the visible ones among the entries
+   restamped with g - same products, sorted, same version and extra columns *)
+Theorem taglist_roundtrip_override t g fl :
+  nonl (tl_tag t) -> wf_entries (tl_entries t) -> wf_word g = true ->
+  tl_read (tl_new (tl_tag t) (Some fl)) (tl_write (Some g) t)
+  = Ok (mkTl (tl_tag t) fl
+         (map (as_flavor fl) (filter (visible fl) (map (restamp g) (sorted_entries (tl_entries t)))))).
+Proof. apply tl_read_write_override. Qed.
+Print Assumptions taglist_roundtrip_override.
+
+(* read back for the flavor it was written for: every product of the list, under that flavor *)
+Theorem write_override_roundtrip t g :
+  nonl (tl_tag t) -> wf_entries (tl_entries t) -> wf_word g = true ->
+  tl_read (tl_new (tl_tag t) (Some g)) (tl_write (Some g) t)
+  = Ok (mkTl (tl_tag t) g (map (restamp g) (sorted_entries (tl_entries t)))).
+Proof.
+  intros Ht Hwf Hg. rewrite tl_read_write_override by assumption. now rewrite visible_restamp_same.
+Qed.
+Print Assumptions write_override_roundtrip.
+
+(* read back for any other flavor (the override not being the wild card): nothing *)
+Theorem write_override_other_reader t g fl :
+  nonl (tl_tag t) -> wf_entries (tl_entries t) -> wf_word g = true -> g <> fl -> g <> s_generic ->
+  tl_read (tl_new (tl_tag t) (Some fl)) (tl_write (Some g) t) = Ok (mkTl (tl_tag t) fl []).
+Proof.
+  intros Ht Hwf Hg H1 H2. rewrite tl_read_write_override by assumption.
+  now rewrite visible_restamp_other.
+Qed.
+Print Assumptions write_override_other_reader.
+
+(* the sequence of the seeded change, for all lists and all sequences of writes before: after any
+   writes (overrides, dry runs, other files or the same one) a plain write puts into the file the
+   list as it was before them, and a reader of flavor fl reads back exactly its visible entries *)
+Theorem write_after_writes_roundtrip s ops f fl s' :
+  forallb tl_is_write ops = true ->
+  nonl (tl_tag (ts_list s)) -> wf_entries (tl_entries (ts_list s)) ->
+  tl_run s (ops ++ [TWrite f None false]) = Ok s' ->
+  ts_list s' = ts_list s /\
+  exists text, alookup f (ts_files s') = Some text /\
+    tl_read (tl_new (tl_tag (ts_list s)) (Some fl)) text
+    = Ok (mkTl (tl_tag (ts_list s)) fl
+           (map (as_flavor fl) (filter (visible fl) (sorted_entries (tl_entries (ts_list s)))))).
+Proof.
+  intros Hw Ht Hwf Hr. rewrite tl_run_app in Hr.
+  destruct (tl_run_writes_ok ops s Hw) as [s1 H1]. rewrite H1 in Hr.
+  assert (Hl := tl_run_writes_list ops s s1 Hw H1).
+  cbn [tl_run tl_step] in Hr. inversion Hr; subst s'; clear Hr. cbn [ts_list ts_files].
+  split; [assumption|]. eexists. split; [apply alookup_aset_same|].
+  rewrite Hl. now apply tl_read_write.
+Qed.
+Print Assumptions write_after_writes_roundtrip.
+
+(* the same for Manifest objects: addDependency, write(file, noOptional, flavor, noaction),
+   read(file, setproduct, shouldRecurse) into the same object, reverse *)
+Theorem mwrite_leaves_manifest_unchanged efl who time ver s f noopt fa na s' :
+  m_step efl who time ver s (MWrite f noopt fa na) = Ok s' -> ms_man s' = ms_man s.
+Proof. apply m_step_write_man. Qed.
+Print Assumptions mwrite_leaves_manifest_unchanged.
+
+Theorem mwrite_noaction_changes_nothing efl who time ver s f noopt fa :
+  m_step efl who time ver s (MWrite f noopt fa true) = Ok s.
+Proof. apply m_step_noaction. Qed.
+Print Assumptions mwrite_noaction_changes_nothing.
+
+(* after any writes a further write puts into the file the manifest as it was before them: read
+   back it gives the same entries in the same order with the same fields (manifest_roundtrip) *)
+Theorem mwrite_after_writes_roundtrip efl who time ver s ops f noopt fa s' :
+  forallb m_is_write ops = true ->
+  wf_manifest (ms_man s) = true -> wf_oword fa = true -> wf_word efl = true ->
+  no_nl who = true -> no_nl time = true -> no_nl ver = true ->
+  m_run efl who time ver s (ops ++ [MWrite f noopt fa false]) = Ok s' ->
+  ms_man s' = ms_man s /\
+  exists text, alookup f (ms_files s') = Some text /\
+    m_read true true false empty_manifest text = Ok (norm_manifest noopt fa efl (ms_man s)).
+Proof.
+  intros Hw Hwf Hfa Hefl H1 H2 H3 Hr. rewrite m_run_app in Hr.
+  destruct (m_run_writes_ok efl who time ver ops s Hw) as [s1 Hs1]. rewrite Hs1 in Hr.
+  assert (Hm := m_run_writes_man efl who time ver ops s s1 Hw Hs1).
+  cbn [m_run m_step] in Hr. inversion Hr; subst s'; clear Hr. cbn [ms_man ms_files].
+  split; [assumption|]. eexists. split; [apply alookup_aset_same|].
+  rewrite Hm. now apply manifest_roundtrip.
+Qed.
+Print Assumptions mwrite_after_writes_roundtrip.
+
+Definition ex_tl_mixed : tlist :=
+  tl_add (tl_add (tl_add (tl_new (lit "stable") (Some (lit "Linux64")))
+    (lit "afw") (lit "3.2") None []) (lit "base") (lit "1.0") (Some (lit "generic")) [lit "x"])
+    (lit "cfitsio") (lit "3006.2") (Some (lit "DarwinX86")) [].
+
+(* a list of three flavors published for another platform (also as a dry run), then as it is: the
+   second file gives a Linux64 reader afw and base, a DarwinX86 reader base and cfitsio; the first
+   file gives a DarwinX86 reader all three; the dry run wrote no file *)
+Definition ex_ops : list tl_op :=
+  [TWrite (lit "d") (Some (lit "DarwinX86")) false; TWrite (lit "n") (Some (lit "DarwinX86")) true].
+
+Definition ex_ops_seen : option (list str * list (list str)) :=
+  match tl_run (mkTs ex_tl_mixed []) (ex_ops ++ [TWrite (lit "f") None false]) with
+  | Ok s' =>
+      Some (akeys (ts_files s'),
+            map (fun fr => match alookup (fst fr) (ts_files s') with
+                           | Some text => match tl_read (tl_new (lit "stable") (Some (snd fr))) text with
+                                          | Ok t => akeys (tl_entries t)
+                                          | Err _ => []
+                                          end
+                           | None => []
+                           end)
+                [(lit "f", lit "Linux64"); (lit "f", lit "DarwinX86"); (lit "d", lit "DarwinX86")])
+  | Err _ => None
+  end.
+
+Example ops_hyps_inhabited :
+  forallb tl_is_write ex_ops = true /\ forallb wf_tlinfo (tl_entries ex_tl_mixed) = true /\
+  ex_ops_seen = Some ([lit "d"; lit "f"],
+                      [[lit "afw"; lit "base"]; [lit "base"; lit "cfitsio"]; [lit "afw"; lit "base"; lit "cfitsio"]]).
 Proof. vm_compute. repeat split. Qed.
 
 (* ================================================================== remap tables *)
